@@ -25,7 +25,7 @@ def census(run, doc, cfgname, quiet_samples=False):
     F = Facts(doc)
     models = {ev: Model(F, ev) for ev in F.evaluators_present()}
     J, rec = justifications(F, models)
-    reach = F.reach()
+    reach = F.scope()
     n_edges = n_dis = n_const = 0
     unclassified = Counter()
     for f in F.fns:
